@@ -242,12 +242,67 @@ def sequence_worker(args):
     return res
 
 
+# ---- negative literals are values wherever a value is written -----------------------------------------
+VALUE_FORMS = [
+    ('print -5', '-5'),
+    ('println -2.5', '-2.5\n'),
+    ('print 1 print -2 println -3', '1 -2 -3\n'),
+    ('printf "{} {}" 3 -5', '3 -5'),
+    ('printf "{:>4}|{}" -7 -0.5', '  -7|-0.5'),
+    ('define m 4 print -m', '-4'),
+    ('define f begin return -1 end print [f]', '-1'),
+    ('define g with a begin print a end g -6 [g -8]', '-6 -8'),
+    ('assign x -1 print x', '-1'),
+    ('repeat 2 with h cycle -90 begin print h end', '-90 90.0'),
+]
+
+
+def value_forms_worker(args):
+    from bardolph.parser.parse import Parser
+    from bardolph.vm.machine import Machine
+    res = report.WorkResult('negative literals as values')
+    world.start_function_trace()
+    res.sites.add('value-forms')
+    for text, want in VALUE_FORMS:
+        res.nontrivial += 1
+        out = io.StringIO()
+        saved = sys.stdout
+        world.configure(output=lambda net: std_out_output.configure())
+        world.uninstall_real_mode()
+        p = Parser()
+        try:
+            ok = p.parse(text)
+        except Exception as ex:
+            res.violation('value-forms|compiler raises', 'compiler raises %s: %s\n  script: %s' % (type(ex).__name__, ex, text), inputs={'script': text}, replayed=True)
+            continue
+        res.reached.add('value-forms')
+        if not ok:
+            res.violation('value-forms|rejected', 'a negative literal is not accepted as a value: %s\n  script: %s' % (p.get_errors().strip(), text),
+                          inputs={'script': text}, replayed=True)
+            continue
+        sys.stdout = out
+        try:
+            m = Machine()
+            m.reset()
+            m.run(p.get_program())
+        finally:
+            sys.stdout = saved
+        got = out.getvalue()
+        if got.rstrip('\n') != want.rstrip('\n'):
+            res.violation('value-forms|wrong text', 'stdout %r, expected %r\n  script: %s' % (got, want, text), inputs={'script': text}, replayed=True)
+    world.install_real_mode()
+    res.sample({'scripts': [t for t, _ in VALUE_FORMS]})
+    res.functions = world.functions_seen()
+    return res
+
+
 def run(tier, seed):
     t0 = time.time()
     cases = build_cases(tier, seed)
     items = [{'case': c, 'max_paths': 200 if tier == 'quick' else 1000, 'budget_s': 10 if tier == 'quick' else 60} for c in cases]
     items.append({'sequence': True, 'stops': 40})
-    results, skipped = report.run_pool(lambda a: sequence_worker(a) if 'sequence' in a else worker(a), items, budget_s=common.tier_budget(tier, 60, 600))
+    items.append({'forms': True})
+    results, skipped = report.run_pool(lambda a: sequence_worker(a) if 'sequence' in a else (value_forms_worker(a) if 'forms' in a else worker(a)), items, budget_s=common.tier_budget(tier, 60, 600))
     return report.finish(
         PROP, tier, seed, 'exploration', results, skipped,
         rule='work item = one program of 2..5 output statements (print / println / printf with anonymous, numbered, named, spec and escaped '
